@@ -275,6 +275,11 @@ def gen_cases(ctx):
         if thorough:
             pool = range(1, 65536)
         for val in pool:
+            if thorough and ctx.time_left() < 0.7 * ctx.budget_s and val % 1024:
+                # the complete enumeration of gt/lt operands may use 30 % of the budget (plus every 1024th operand afterwards);
+                # the random part with its histories must be reached on a slow or loaded machine too
+                STATS["enumeration_thinned"] = STATS.get("enumeration_thinned", 0) + 1
+                continue
             if mine():
                 hist = [rng.choice(views)] if not thorough or val % 64 == 0 else []
                 if val in (1, 2, 65534, 65535):
@@ -390,6 +395,7 @@ def run(ctx) -> None:
                        n=max(1, STATS["inv"] - inv0 + STATS["codec"] - cod0))
     ctx.count("invariant_evaluations", STATS["inv"])
     ctx.count("codec_contract_evaluations", STATS["codec"])
+    ctx.count("gt_lt_operands_skipped_by_time_cap", STATS.get("enumeration_thinned", 0))
     ctx.count("invariant_evaluations_with_repeated_operands", STATS.get("dup", 0))
     ctx.count("cases", done)
 
